@@ -38,6 +38,10 @@ os.chdir(HERE)
 from pyvc import runner  # noqa: E402
 
 PROPS = {json.loads(l)["id"]: json.loads(l) for l in open(os.path.join(HERE, "properties.jsonl"))}
+# helper runs against a scratch copy of the repository (VERIF_REPO, see tools_seeded.py) write their output elsewhere
+REPLAY_DIR = os.environ.get("VERIF_REPLAY_DIR", os.path.join(HERE, "replays"))
+EVIDENCE_DIR = os.environ.get("VERIF_EVIDENCE_DIR", os.path.join(HERE, "evidence"))
+
 RTC_DRIVERS = {
     "drv_terms": ["C01", "C02", "C03", "C04", "C05", "C06"],
     "drv_sumprod": ["C08", "C09", "C10", "C11"],
@@ -79,7 +83,7 @@ def slug(s):
 
 
 def write_replay(prop, name, src, header):
-    d = os.path.join(HERE, "replays", prop)
+    d = os.path.join(REPLAY_DIR, prop)
     os.makedirs(d, exist_ok=True)
     path = os.path.join(d, slug(name) + ".py")
     with open(path, "w") as f:
@@ -155,9 +159,9 @@ def main():
     assert prop in PROPS, prop
     t0 = time.time()
     # replays of earlier runs are stale: every VIOLATION line of this run names a file written by this run
-    shutil.rmtree(os.path.join(HERE, "replays", prop), ignore_errors=True)
+    shutil.rmtree(os.path.join(REPLAY_DIR, prop), ignore_errors=True)
     known = load_known()
-    baseline = load_baseline().get(prop, {})
+    baseline = load_baseline().get(prop + ":" + tier, {})  # one baseline per (property, tier): the tiers enumerate different structures
     violations = []  # (replay_path, reproduced, text)
     known_lines = []
     undecided = []
@@ -381,13 +385,18 @@ def main():
         selftests=ev_cov,
     )
     ev = dict(property_id=prop, tier=tier, seed=seed, level=level, coverage=cov, assumptions=assumptions, wall_s=round(time.time() - t0, 2), violations=len(violations))
-    os.makedirs(os.path.join(HERE, "evidence"), exist_ok=True)
-    with open(os.path.join(HERE, "evidence", prop + ".json"), "w") as f:
+    os.makedirs(EVIDENCE_DIR, exist_ok=True)
+    with open(os.path.join(EVIDENCE_DIR, prop + ".json"), "w") as f:
         json.dump(ev, f, indent=1, default=str)
 
     if "--update-baseline" in args:
+        import fcntl
+
+        os.makedirs(os.path.join(HERE, "baseline"), exist_ok=True)
+        lock = open(os.path.join(HERE, "baseline", ".lock"), "w")
+        fcntl.flock(lock, fcntl.LOCK_EX)  # helper runs may update different keys concurrently
         allb = load_baseline()
-        allb[prop] = dict(discharged=sorted(oid for oid, o in summ.items() if o["status"] == "discharged"), known_refuted=sorted(oid for oid, o in summ.items() if o["status"] == "refuted"))
+        allb[prop + ":" + tier] = dict(discharged=sorted(oid for oid, o in summ.items() if o["status"] == "discharged"), known_refuted=sorted(oid for oid, o in summ.items() if o["status"] == "refuted"))
         os.makedirs(os.path.join(HERE, "baseline"), exist_ok=True)
         json.dump(allb, open(os.path.join(HERE, "baseline", "obligations.json"), "w"), indent=0, sort_keys=True)
 
